@@ -523,6 +523,17 @@ def _funding_invariants(ctx: Ctx, cer: gw.Ceremony) -> None:
         ctx.check(P18, "insufficient-funds-refused", False, f"inputs {total_in}, outputs {total_in - owed + short}, fee owed {owed}: built with fee {over.fee}")
     if script is None:
         return
+    # the same boundary for a caller who offers a change script: what is left is nothing (or one satoshi short of
+    # nothing), the change is dropped, and the fee owed is that of the transaction without it
+    with ctx.must_succeed(P18, "exact-funds-accepted", "build_psbt+change-script"):
+        built = build_psbt(ins, [*pay, TxOut(exact, last.script_pub_key)], cer.fee_rate, script, **kw)
+    ctx.check(P18, "exact-funds-accepted", built.fee == owed and built.change_index is None, f"with a change script offered: fee {built.fee}, owed {owed}, change {built.change}", site="change-script")
+    try:
+        over = build_psbt(ins, [*pay, TxOut(exact + 1, last.script_pub_key)], cer.fee_rate, script, **kw) if rate else None
+    except LIB:
+        ctx.fault("funds-short")
+    else:
+        ctx.check(P18, "insufficient-funds-refused", over is None, lambda: f"with a change script offered: inputs {total_in}, outputs {total_in - owed + 1}, fee owed {owed}: built with fee {over.fee}", site="change-script")
     # and the boundary of dust: a change worth exactly the threshold is created, one satoshi less is left to the fee
     with_change = deepcopy(psbt)
     if funded.change_index is None:
